@@ -164,7 +164,7 @@ fn enumerate(max_root: usize, max_add: usize) -> Vec<EnumCase> {
 fn random_case(rng: &mut Rng) -> EnumCase {
     let rl = 1 + rng.below(14);
     let mut used = std::collections::BTreeSet::new();
-    let mut gen = |rng: &mut Rng, used: &mut std::collections::BTreeSet<i64>, lo: i64| -> Option<i64> {
+    let gen = |rng: &mut Rng, used: &mut std::collections::BTreeSet<i64>, lo: i64| -> Option<i64> {
         if rng.chance(1, 2) {
             None
         } else {
